@@ -435,6 +435,26 @@ pub fn probe_c08(run: &Run, rng: &mut Rng, acc: &mut Acc) -> Vec<String> {
             }
         }
     }
+    // a revoked nomination cannot be accepted by anybody (the nominee included), at any time
+    {
+        let mut w = sc.w.clone();
+        let r1 = w.exec(&admin, q, &json!({"transfer_ownership": {"new_owner": nominee}}).to_string(), &[]);
+        let r2 = w.exec(&admin, q, &json!({"revoke_ownership_transfer": {}}).to_string(), &[]);
+        if r1.ok && r2.ok {
+            for wait in [0u64, 7 * 24 * 3600] {
+                w.advance(wait);
+                for (role, who) in &principals {
+                    let mut w2 = w.clone();
+                    let r = w2.exec(who, q, &json!({"accept_ownership": {}}).to_string(), &[]);
+                    acc.seen("C08", &format!("accept_after_revoke|{role}|{}", r.ok));
+                    if r.ok {
+                        out.push(format!("AcceptOwnership succeeded for {role} ({who}) after the nomination was revoked"));
+                    }
+                }
+            }
+            acc.count("c08:accept_after_revoke");
+        }
+    }
     // Withdraw only ever pays the caller's own request
     for b in o.batches.iter().filter(|b| b.status == "received").take(3) {
         for (role, who) in &principals {
@@ -582,7 +602,7 @@ pub fn probe_c10(run: &Run, rng: &mut Rng, acc: &mut Acc) -> Vec<String> {
             continue;
         }
         acc.count(&format!("c10:running_clone_succeeds:{name}"));
-        acc.seen("C10", &format!("{name}|{}|{}", tripper == sc.admin, crate::model::regime(obs_b.n, obs_b.l)));
+        acc.seen("C10", &format!("{name}|{}|{}|{}|{}|{}", tripper == sc.admin, crate::model::regime(obs_b.n, obs_b.l), obs_b.batches.len().min(4), obs_b.queue.len().min(3), crate::model::mag(obs_b.n)));
         if ra.ok {
             out.push(format!("{name} succeeded while the contract is halted (it also succeeds when running)"));
         } else {
